@@ -253,6 +253,7 @@ def check_limits(obj, label, st, mx, viol, witness, budget=None):
 
     budget = budget or BUDGET["limit"]
     expr = None
+    reported = {}
     for which, lim_f, far in (("zero", 0.0, "1e-3000"), ("inf", float("inf"), "1e+3000")):
         try:
             with time_limit(budget):
@@ -266,6 +267,7 @@ def check_limits(obj, label, st, mx, viol, witness, budget=None):
             continue
         if not (math.isfinite(L.real) and math.isfinite(L.imag)):
             continue
+        reported[which] = L
         try:
             with time_limit(BUDGET["sympy"]):
                 if expr is None:
@@ -301,6 +303,41 @@ def check_limits(obj, label, st, mx, viol, witness, budget=None):
             viol.append({"key": f"C02/limit-not-continuous:{which}:{label.split(' ')[0]}",
                          "msg": f"{label}: reported f->{which} limit {L}, but the documented expression at f={far} Hz is 10^{far_abs:.1f} in modulus and differs from the reported limit by 10^{diff_log:.1f} (relative 10^{rel_log:.1f})",
                          "witness": witness})
+    check_joint_limit_queries(obj, reported, label, st, viol, witness)
+
+
+def check_joint_limit_queries(obj, reported, label, st, viol, witness):
+    """Both limits asked for in ONE call, in either order, with finite frequencies in between and repeated entries, must
+    report each limit at its own position (the property's observe_at names get_impedances([0, inf]))."""
+    if "zero" not in reported or "inf" not in reported:
+        return
+    inf = float("inf")
+    try:
+        with np.errstate(all="ignore"):
+            zmid = complex(obj.get_impedances(np.array([1.0]))[0])
+    except Exception:
+        return
+    exp_of = {0.0: reported["zero"], inf: reported["inf"], 1.0: zmid}
+    for vec in ([0.0, inf], [inf, 0.0], [inf, 1.0, 0.0], [0.0, 1.0, inf], [inf, 0.0, inf, 1.0, 0.0]):
+        try:
+            with time_limit(4 * BUDGET["limit"]):
+                with np.errstate(all="ignore"):
+                    got = [complex(z) for z in obj.get_impedances(np.array(vec))]
+        except _Budget:
+            st["joint_limit_budget"] = st.get("joint_limit_budget", 0) + 1
+            return
+        except Exception as ex:
+            viol.append({"key": f"C02/joint-limit-query-raised:{type(ex).__name__}",
+                         "msg": f"{label}: get_impedances({vec}) raised {type(ex).__name__}: {str(ex)[:160]} although each limit is reported when asked for separately",
+                         "witness": witness})
+            return
+        st["joint_limit_queries"] = st.get("joint_limit_queries", 0) + 1
+        exp = [exp_of[v] for v in vec]
+        if len(got) != len(exp) or not all(abs(a - b) <= 1e-9 * max(abs(b), 1e-300) + 1e-300 for a, b in zip(got, exp)):
+            viol.append({"key": "C02/joint-limit-query-misplaced",
+                         "msg": f"{label}: get_impedances({vec}) = {got} but the limits asked for separately are f->0: {reported['zero']}, f->inf: {reported['inf']} (Z(1 Hz) = {zmid})",
+                         "witness": witness})
+            return
 
 
 def check_limits_after_change(obj, elements, label, st, mx, viol, witness):
@@ -574,6 +611,8 @@ def finalize(agg):
         inc.append("whole-circuit comparison hardly exercised")
     if s.get("limit_zero_checked", 0) + s.get("limit_inf_checked", 0) < 10:
         inc.append("limit clause hardly exercised")
+    if s.get("joint_limit_queries", 0) < 5:
+        inc.append("joint [0, inf] limit queries hardly exercised")
     if s.get("limit_requery_after_set_values", 0) < 5:
         inc.append("limit re-query after a nested change hardly exercised")
     return {"viol": [], "inconclusive": inc[:5]}
